@@ -93,3 +93,21 @@ fn d9_pok_message_augmentation() {
     let tp = ProofOfKnowledgeTimestamp::generate(b"msg", sig).unwrap();
     assert!(tp.verify(pk, b"msg", None).is_ok());
 }
+#[test]
+fn d10_json_reader_backends() {
+    // the two backends do not accept the same human-readable documents: JSON written by the library decodes through
+    // `from_reader` / `from_value` under the pure-Rust backend and is refused ("expected a borrowed string") under blst
+    let sk = SecretKey::<Bls12381G1Impl>::from_hash(b"probe");
+    let pk = sk.public_key();
+    let sig = sk.sign(SignatureSchemes::Basic, b"m").unwrap();
+    let (js, jp, jg) = (serde_json::to_string(&sk).unwrap(), serde_json::to_string(&pk).unwrap(), serde_json::to_string(&sig).unwrap());
+    assert!(serde_json::from_str::<SecretKey<Bls12381G1Impl>>(&js).is_ok());
+    let by_reader = [
+        serde_json::from_reader::<_, SecretKey<Bls12381G1Impl>>(js.as_bytes()).is_ok(),
+        serde_json::from_reader::<_, PublicKey<Bls12381G1Impl>>(jp.as_bytes()).is_ok(),
+        serde_json::from_reader::<_, Signature<Bls12381G1Impl>>(jg.as_bytes()).is_ok(),
+        serde_json::from_value::<PublicKey<Bls12381G1Impl>>(serde_json::from_str(&jp).unwrap()).is_ok(),
+    ];
+    // observed: [false; 4] with the default features, [true; 4] with --no-default-features --features rust
+    assert_eq!(by_reader, [cfg!(feature = "rust"); 4]);
+}
